@@ -1,0 +1,19 @@
+//go:build verif
+
+package defaults
+
+// Contracts for /verif (contract-based deductive verification of the real
+// code). Comment-only: no code; visible only with the build tag "verif".
+//
+//@ func (Redirector).redirectNonAPI
+//@   property C15
+//@   -- the browser is sent to the configured path, or to a client-supplied target that no
+//@   -- browser resolves to another origin
+//@   ensures guard: each HTTPRedirect(_, ?url, ?code) => code == 302 && (url == ro.RedirectPath || !offsite(url))
+//@   ensures param_only_when_asked: each HTTPRedirect(_, ?url, _) => (!ro.FollowRedirParam ==> url == ro.RedirectPath)
+//@   ensures redirects_once: !panics ==> emits HTTPRedirect(_, _, _)
+//@
+//@ func (Redirector).redirectAPI
+//@   property C15
+//@   ensures guard: each Render(_, ?data) => (mapget(data, "location") == ro.RedirectPath || !offsite(mapget(data, "location")))
+//@   ensures param_only_when_asked: each Render(_, ?data) => (!ro.FollowRedirParam ==> mapget(data, "location") == ro.RedirectPath)
